@@ -227,6 +227,7 @@ func (r *Run) report(updateLock, verbose, noEvidence bool) int {
 	total := 0
 	byKind := map[string]int{}
 	bySolver := map[string]int{}
+	byVariant := map[string]int{}
 	solverSecs := 0.0
 	dup := map[string]bool{}
 	for _, o := range e.obls {
@@ -264,10 +265,15 @@ func (r *Run) report(updateLock, verbose, noEvidence bool) int {
 		if o.Verdict == "unsat" {
 			discharged++
 			sv := o.Solver
+			variant := "full query"
+			if i := strings.Index(sv, " ("); i > 0 {
+				variant = strings.TrimSuffix(sv[i+2:], ")")
+			}
 			if i := strings.IndexAny(sv, " ("); i > 0 {
 				sv = sv[:i]
 			}
 			bySolver[sv]++
+			byVariant[variant]++
 			continue
 		}
 		failures = append(failures, &Failure{Name: o.Name, Reason: "obligation not discharged: " + o.Verdict + " — " + o.Note, Obl: o})
